@@ -344,7 +344,13 @@ def check(ctx):
         vals = [v for node in tcfg.nodes for v in bound_values(node, n_)]
         if vals and all(isinstance(v, ast.Constant) and v.value in (0, 1, True, False) for v in vals) and any(v.value for v in vals) and any(not v.value for v in vals):
             flags.append(n_)
-    flags = [f_ for f_ in flags if any(node.kind == "if" and f_ in df.names_read(node.ast.test) and "\\\\" in unparse(node.ast.test) for node in tcfg.nodes)]
+    def mentions_continuation(test):
+        """the test looks at a backslash-newline literal, itself or through a local that names the comparison"""
+        if "\\\\" in unparse(test):
+            return True
+        return any("\\\\" in unparse(d_.value) for nm_ in df.names_read(test) for d_ in tdefs.get(nm_, []) if d_.value is not None and d_.kind == "assign")
+
+    flags = [f_ for f_ in flags if any(node.kind == "if" and f_ in df.names_read(node.ast.test) and mentions_continuation(node.ast.test) for node in tcfg.nodes)]
     if len(flags) != 1:
         raise AnalysisError(f"xonsh/parsers/tokenize.py:_tokenize: continuation flag not identified ({flags})")
     FLAG = flags[0]
